@@ -718,8 +718,22 @@ impl MemberOf {
             post.attribute_equality(Attribute::Class, &EntryClass::Group.into())
                 || pre.attribute_equality(Attribute::Class, &EntryClass::Group.into())
         }) {
-            let pre_member = pre.get_ava_refer(Attribute::Member);
-            let post_member = post.get_ava_refer(Attribute::Member);
+            // Only a live group has effective members. A group that changes between the recycled
+            // and live states in this operation (for example a revive) affects all of its members,
+            // even though its member values are unchanged.
+            let pre_live = pre.mask_recycled_ts().is_some();
+            let post_live = post.mask_recycled_ts().is_some();
+
+            let pre_member = if pre_live {
+                pre.get_ava_refer(Attribute::Member)
+            } else {
+                None
+            };
+            let post_member = if post_live {
+                post.get_ava_refer(Attribute::Member)
+            } else {
+                None
+            };
 
             match (pre_member, post_member) {
                 (Some(pre_m), Some(post_m)) => {
@@ -733,8 +747,16 @@ impl MemberOf {
                 (None, None) => {}
             };
 
-            let pre_dynmember = pre.get_ava_refer(Attribute::DynMember);
-            let post_dynmember = post.get_ava_refer(Attribute::DynMember);
+            let pre_dynmember = if pre_live {
+                pre.get_ava_refer(Attribute::DynMember)
+            } else {
+                None
+            };
+            let post_dynmember = if post_live {
+                post.get_ava_refer(Attribute::DynMember)
+            } else {
+                None
+            };
 
             match (pre_dynmember, post_dynmember) {
                 (Some(pre_m), Some(post_m)) => {
